@@ -167,14 +167,17 @@ def run(sc, callbacks=(), model=None, therm=None, temperature_entry="setter", ex
     model.addCouplingModel(obs)
     truncated = False
     completed_calls = 0
+    rows = [len(model.pData.time)]
     for dur in sc["durations"]:
         try:
             model.solve(dur, solverType=tap, minDtFrac=sc.get("minDtFrac", 1e-8), maxDtFrac=sc.get("maxDtFrac", 1))
             completed_calls += 1
+            rows.append(len(model.pData.time))
         except StepCap:
             truncated = True
+            rows.append(len(model.pData.time))
             break
-    return {"model": model, "therm": therm, "tap": tap, "obs": obs, "truncated": truncated, "completed_calls": completed_calls}
+    return {"model": model, "therm": therm, "tap": tap, "obs": obs, "truncated": truncated, "completed_calls": completed_calls, "rows_after_call": rows}
 
 
 # ---------------------------------------------------------------- reference geometry
